@@ -98,11 +98,9 @@ pub trait ExtractAttribute {
 
         quote!(
             #declarations
-            use ::darling::ToTokens;
-
             for __attr in #attrs_accessor {
                 // Filter attributes based on name
-                match ::darling::export::ToString::to_string(&__attr.path().clone().into_token_stream()).as_str() {
+                match ::darling::util::path_to_string(__attr.path()).as_str() {
                     #parse_handled
                     #forward_unhandled
                 }
